@@ -1,6 +1,6 @@
 (* C16_dup: ares_dup reproduces the covered option fields (save_init_effective), the local
    device / addresses / socket functions, and - when the application set the servers - the
-   server list, through its text form (csv_fixpoint_plain_any). *)
+   server list, through its text form (csv_fixpoint_any). *)
 From CAres.Config Require Import Spec Options_proofs Csv_proofs Inv_proofs.
 From CAres.Gen Require Import Consts.
 Local Open Scope Z_scope.
@@ -19,8 +19,8 @@ Proof.
 Qed.
 
 (* Full statement: dup c agrees with c on every covered field, on the local settings and on the
-   ordered server list.  Proved for channels satisfying chan_wf whose servers all use one port
-   for UDP and TCP (plain text form) and satisfy server_ok / pairwise difference, with two side
+   ordered server list.  Proved for channels satisfying chan_wf whose servers satisfy
+   server_ok (plain or dns:// text form) / pairwise difference, with two side
    conditions on the intermediate channel d0 = init (save c) that hold by construction but are
    not yet proved from the model of ares_init_options: its servers carry no stray interface
    name, and ARES_FLAG_PRIMARY is only set when c has a single server. *)
@@ -42,7 +42,7 @@ Proof.
   destruct (has m B_SERVERS) eqn:Eb.
   - destruct (get_servers_csv nf (c_servers src)) as [csv| |] eqn:Ec; try discriminate.
     unfold chan_set_csv in Hd. cbn [chan_set_local c_ifs c_flags c_udp c_tcp c_servers] in Hd.
-    rewrite (csv_fixpoint_plain_any nf (c_ifs src) (c_flags d0) (c_udp d0) (c_tcp d0) (c_servers d0) (c_servers src) csv
+    rewrite (csv_fixpoint_any nf (c_ifs src) (c_flags d0) (c_udp d0) (c_tcp d0) (c_servers d0) (c_servers src) csv
                F (D _ _) Hold P Ec) in Hd.
     cbn [bind] in Hd. apply Ok_inj in Hd. subst d.
     split; [apply covered_same_set_servers; apply covered_same_set_local; exact CS|].
